@@ -238,6 +238,25 @@ pub fn run(ctx: &Ctx) {
     error_case(ctx, &bin, "min-substring-length-zero", &["--min-substring-length", "0", "a"], None, false);
     error_case(ctx, &bin, "min-repetitions-not-a-number", &["--min-repetitions", "x", "a"], None, false);
     error_case(ctx, &bin, "min-repetitions-negative", &["--min-repetitions=-1", "a"], None, false);
+    error_case(ctx, &bin, "min-repetitions-overflow", &["--min-repetitions", "4294967296", "a"], None, false);
+    error_case(ctx, &bin, "min-substring-length-overflow", &["--min-substring-length", "99999999999", "a"], None, false);
+    // extreme but legal thresholds must behave like the library
+    for (r, l) in [(u32::MAX, 1u32), (1, u32::MAX), (7, 3), (100, 100)] {
+        ctx.run.eval();
+        let tcs: Vec<String> = vec!["aaaaaaaa".to_string(), "abababab".to_string(), "xyzxyz".to_string()];
+        let cfg = Cfg::with(R, r, l);
+        let args: Vec<String> = vec!["-r".into(), format!("--min-repetitions={r}"), "--min-substring-length".into(), l.to_string(), "--".into(), tcs[0].clone(), tcs[1].clone(), tcs[2].clone()];
+        ctx.run.mark_nontrivial(hash_case(&tcs, &cfg));
+        match (run_cli(&bin, &args, None), cfg.build(&tcs)) {
+            (Ok(o), Ok(expect)) => {
+                if o.code != Some(0) || o.stdout != format!("{expect}\n") {
+                    ctx.run.violation(viol("C12", "cli", "extreme-thresholds-differ-from-library".into(), &tcs, &cfg, &o.stdout, json!({"args": args, "exit": o.code, "stderr": o.stderr.chars().take(300).collect::<String>(), "expected_stdout": format!("{expect}\n")})));
+                }
+            }
+            (Err(e), _) => ctx.run.machinery_error(e),
+            _ => {}
+        }
+    }
     error_case(ctx, &bin, "surrogates-without-escape", &["--with-surrogates", "a"], None, false);
     error_case(ctx, &bin, "no-input", &[], None, false);
     // a blank-only file is not an error: its lines are empty-string test cases
@@ -256,6 +275,6 @@ pub fn run(ctx: &Ctx) {
             Err(e) => ctx.run.machinery_error(e),
         }
     }
-    ctx.run.space(json!({"error_inputs": 18, "blank_only_files": 3}));
+    ctx.run.space(json!({"error_inputs": 20, "blank_only_files": 3, "extreme_threshold_cases": 4}));
     let _ = std::fs::remove_dir_all(&dir);
 }
